@@ -24,6 +24,7 @@ func init() {
 			{"C08.flag-defaults", "extract goes through a temp file unless --in-place is given", 1, func(c *Ctx) {
 				c.flagDefaults(map[string]flagSpec{"in-place": {"false", "extractOptions.inPlace", 1}})
 			}},
+			{"C08.destination-uses", "in extract the destination name reaches only the seed readers and the two assembly paths", 4, c08DestinationUses},
 			{"C08.resume", "in-place re-run keeps only ranges that hash to their chunk id", 3, c01WriteChunk},
 		},
 	})
@@ -329,4 +330,82 @@ func c08InPlaceByFlagOnly(c *Ctx) {
 		})
 	}
 	c.ok("extractOptions.inPlace:flag-only", 0, "%d program stores to opt.inPlace", stores)
+}
+
+// c08DestinationUses: who may touch the destination name in extract.  In runExtract the
+// destination (args[1]) is handed only to the seed readers (which compare it), to writeInplace
+// and to writeWithTmpFile, or to calls that cannot create or change a file (Stat/Lstat,
+// filepath.*, path.*, string comparison).  Anything else (os.Create, os.OpenFile, os.Truncate,
+// os.WriteFile, os.Remove ...) would make a file appear, change or vanish under the destination
+// name outside the temp-file-then-rename protocol.
+var c08DestinationAllowed = map[string]string{
+	"cmd.readSeeds":        "skips a seed that is the destination itself (comparison only)",
+	"cmd.readSeedDirs":     "skips index files describing the destination (comparison only)",
+	"cmd.writeInplace":     "assembly in place, only behind --in-place (C08.in-place-by-flag-only)",
+	"cmd.writeWithTmpFile": "assembly into a temp file that is renamed onto the destination",
+	"os.Stat":              "read-only",
+	"os.Lstat":             "read-only",
+}
+
+func c08DestinationUses(c *Ctx) {
+	fn := c.mustFn("cmd.runExtract")
+	if fn == nil {
+		return
+	}
+	var args *ssa.Parameter
+	for _, p := range fn.Params {
+		if p.Name() == "args" || strings.HasPrefix(p.Type().String(), "[]string") {
+			args = p
+		}
+	}
+	if args == nil {
+		c.bad("cmd.runExtract:destination", fn.Pos(), "no []string parameter found")
+		return
+	}
+	// loads of args[1]
+	isDest := func(v ssa.Value) bool {
+		for _, l := range leaves(v) {
+			u, ok := l.(*ssa.UnOp)
+			if !ok || u.Op != token.MUL {
+				continue
+			}
+			ia, ok := u.X.(*ssa.IndexAddr)
+			if !ok || !isParam(ia.X, args) {
+				continue
+			}
+			if k, ok := ia.Index.(*ssa.Const); ok && k.Int64() == 1 {
+				return true
+			}
+		}
+		return false
+	}
+	uses := 0
+	for _, f := range withClosures(fn) {
+		instrs(f, func(_ *ssa.BasicBlock, _ int, ins ssa.Instruction) {
+			ci, ok := ins.(ssa.CallInstruction)
+			if !ok {
+				return
+			}
+			for _, a := range ci.Common().Args {
+				if a.Type().String() != "string" || !isDest(a) {
+					continue
+				}
+				uses++
+				name := callee(ci)
+				key := "cmd.runExtract:destination->" + name
+				why, ok := c08DestinationAllowed[name]
+				switch {
+				case ok:
+					c.ok(key, ins.Pos(), "allowed: %s", why)
+				case strings.HasPrefix(name, "path/filepath.") || strings.HasPrefix(name, "path.") || strings.HasPrefix(name, "strings.") || strings.HasPrefix(name, "fmt."):
+					c.ok(key, ins.Pos(), "pure function of the name")
+				default:
+					c.bad(key, ins.Pos(), "the destination name is passed to %s before/outside the temp-file protocol: a file can be created, changed or removed under the destination name although the extract has not succeeded", name)
+				}
+			}
+		})
+	}
+	if uses < 3 {
+		c.bad("cmd.runExtract:destination", fn.Pos(), "only %d uses of the destination argument found", uses)
+	}
 }
